@@ -159,6 +159,22 @@ CLAIMED = {
              "specification. Not proved: the Encoding view classes (27 known findings list their broken reads by "
              "(encoding, read, failure kind, view)), VoxelGrid transforms.",
         technique="Lean 4 proof over hand-written executable model + differential correspondence (line protocol)"),
+    "C18": dict(
+        category="proof", design_ref="DESIGN.md 5 C18",
+        text="Lean 4 theorems for subdivision over any field of characteristic 0 and any symmetric midpoint "
+             "numbering: each of the four children has a quarter of the parent's area vector (area preserved), "
+             "all ten exact moments of the children add up to the parent's (volume, centre of mass, inertia "
+             "preserved), directed-edge pairing (watertightness + consistent winding) is preserved by subdividing "
+             "every face of a mesh of any size, counts V+E / 2E+3F / 4F keep the Euler number, original corners "
+             "stay, child edges are half as long (so size-bounded subdivision terminates at any bound), reversing "
+             "a face negates its area vector and volume contribution. fix_normals / fix_winding / fix_inversion, "
+             "fill_holes, subdivide_to_size and subdivide_loop are tied to these statements by the differential "
+             "run (all / random re-winding subsets incl. whole bodies of unequal size, every single and double "
+             "face removal, edge bounds around the longest edge).",
+        note="Trusted: Lean kernel (+propext/Classical.choice/Quot.sound), float64 on dyadic inputs. Partial: the "
+             "BFS winding repair and hole filling are checked by correspondence only (networkx traversal not "
+             "modelled). Known finding: fill_holes on a tetrahedron missing two faces.",
+        technique="Lean 4 proof (polynomial identities + list-permutation argument) + differential correspondence"),
     "C19": dict(
         category="proof", design_ref="DESIGN.md 5 C19",
         text="rotation_matrix, quaternion_matrix, quaternion_multiply, euler_matrix and quaternion_from_euler for all "
